@@ -29,7 +29,9 @@ ASSUMPTIONS = [
 T_COMP = ["1n", "2n", "1s", "XXXz", "___z"]
 R_COMP = ["1w", "2w", "1e", "XXXz", "___z"]
 S_COMP = ["01", "02", "XX", "__"]
-DESCS = ["NE/4", "Northeast Quarter", "NE¼", "Lots 1 - 3, S/2NE/4", "Lot 3, S/2NE/4, Lots 1, 2", "W/2", "That part lying north of the river"]
+DESCS = ["NE/4", "Northeast Quarter", "NE¼", "Lots 1 - 3, S/2NE/4", "Lot 3, S/2NE/4, Lots 1, 2", "W/2", "That part lying north of the river",
+         # the same lots / aliquots with repeats inside one description (the lots_qqs method compares them as sets)
+         "NE/4, N/2NE/4", "Lots 1 - 3", "Lot 3, Lots 1 - 3"]
 
 ELEM = st.fixed_dictionaries({
     "t": st.sampled_from(T_COMP[:3] * 3 + T_COMP), "r": st.sampled_from(R_COMP[:3] * 3 + R_COMP), "s": st.sampled_from(S_COMP[:2] * 3 + S_COMP),
@@ -71,10 +73,33 @@ PREDS = {
     "no_twp": lambda x: x.twp_num is None,
 }
 
+
+def _first_seen():
+    seen = set()
+
+    def pred(x):
+        new = x.trs not in seen
+        seen.add(x.trs)
+        return new
+    return pred
+
+
+def _every_other():
+    n = [0]
+
+    def pred(x):
+        n[0] += 1
+        return n[0] % 2 == 1
+    return pred
+
+
+# predicates that remember what they were asked before (a 'first of its Twp/Rge/Sec' filter, a counter): each element is asked once, in list order
+STATEFUL = {"first_seen_trs": _first_seen, "every_other_call": _every_other}
+
 FILTER_CASE = st.fixed_dictionaries({
     "elems": LIST, "dups": DUPS, "container": st.sampled_from(["TractList", "TRSList", "PLSSDesc"]),
     "op": st.sampled_from(["filter", "filter_errors", "filter_duplicates"]), "drop": st.booleans(),
-    "pred": st.sampled_from(sorted(PREDS)), "twp": st.booleans(), "rge": st.booleans(), "sec": st.booleans(), "undef": st.booleans(),
+    "pred": st.sampled_from(sorted(PREDS) + sorted(STATEFUL)), "twp": st.booleans(), "rge": st.booleans(), "sec": st.booleans(), "undef": st.booleans(),
     "method": st.sampled_from(["instance", "lots_qqs", "desc", "trs", "default"]),
 })
 
@@ -99,8 +124,12 @@ def oracle_filter(c):
     op = c["op"]
     method = c["method"]
     if op == "filter":
-        sel = [PREDS[c["pred"]](x) for x in items]
-        ret = target.filter(PREDS[c["pred"]], drop=c["drop"])
+        if c["pred"] in STATEFUL:
+            model_pred, real_pred = STATEFUL[c["pred"]](), STATEFUL[c["pred"]]()
+        else:
+            model_pred = real_pred = PREDS[c["pred"]]
+        sel = [model_pred(x) for x in items]
+        ret = target.filter(real_pred, drop=c["drop"])
         label = f"filter({c['pred']})"
     elif op == "filter_errors":
         sel = [is_err(parts(x.trs), c["twp"], c["rge"], c["sec"], c["undef"]) for x in items]
@@ -273,11 +302,11 @@ def group_classes(c):
 
 
 # ---------------------------------------------------------------------------
-BAD = ["int", "none", "float", "object", "str", "plss_in_list"]
+BAD = ["int", "none", "float", "object", "str", "plss_in_list", "empty_str"]
 PATHS = ["constructor", "extend", "iadd", "add", "append", "insert", "setitem", "from_multiple", "from_multiple_nested"]
 CONS_CASE = st.fixed_dictionaries({
     "container": st.sampled_from(["TractList", "TRSList"]), "path": st.sampled_from(PATHS + ["from_multiple", "from_multiple"]),
-    "initial": st.lists(ELEM, min_size=0, max_size=3), "good": st.lists(st.tuples(st.sampled_from(["tract", "str", "trs"]), ELEM), min_size=0, max_size=5),
+    "initial": st.lists(ELEM, min_size=0, max_size=3), "good": st.lists(st.tuples(st.sampled_from(["tract", "str", "trs", "tract", "str", "trs", "empty_str"]), ELEM), min_size=0, max_size=5),
     "bad": st.sampled_from([None, None] + BAD), "pos": st.integers(0, 5), "nest": st.integers(1, 3), "wrap": st.sampled_from(["list", "tuple", "generator"]),
     # from_multiple: hand some of the supplied elements over inside a TractList / a list of the same class / a PLSSDesc-like container
     "pack": st.sampled_from(["none", "none", "tractlist", "samelist", "tractlist_nested"]),
@@ -295,16 +324,18 @@ def oracle_construct(c):
     supplied = []       # (object handed over, expected trs string)
     for how, e in c["good"]:
         trs = e["t"] + e["r"] + e["s"]
-        if kind == "TractList" or how == "tract":
+        if how == "empty_str" and kind == "TRSList":
+            supplied.append(("", "___z___z__"))        # the empty string is the undefined Twp/Rge/Sec
+        elif kind == "TractList" or how == "tract":
             supplied.append((mk(e), None))
         elif how == "str":
             supplied.append((trs, trs))
         else:
             supplied.append((TRS(trs), trs))
     bad = c["bad"]
-    if bad == "str" and kind == "TRSList":
+    if bad in ("str", "empty_str") and kind == "TRSList":
         bad = "int"             # a str is acceptable to a TRSList
-    badobj = {"int": 5, "none": None, "float": 1.5, "object": object(), "str": "154n97w14", None: None}.get(bad)
+    badobj = {"int": 5, "none": None, "float": 1.5, "object": object(), "str": "154n97w14", "empty_str": "", None: None}.get(bad)
     if bad == "plss_in_list":
         badobj = PLSSDesc("T154N-R97W Sec 14: NE/4, Sec 15: W/2")
     objs = [o for o, _ in supplied]
@@ -363,7 +394,8 @@ def oracle_construct(c):
         elif path == "from_multiple":
             args = list(objs)
             pack = c.get("pack", "none")
-            if pack != "none" and not has_bad and len(args) >= 2 and not any(isinstance(x, PLSSDesc) for x in args[:2]):
+            if pack != "none" and not has_bad and len(args) >= 2 and not any(isinstance(x, PLSSDesc) for x in args[:2]) \
+                    and not any(h == "empty_str" for h, _ in c["good"][:2]):
                 head, tail = args[:2], args[2:]
                 if pack in ("tractlist", "tractlist_nested"):
                     # (for a TRSList the first two elements are handed over as Tract objects inside a TractList)
